@@ -7,7 +7,7 @@ import ast
 from ..interp import cval, has_const
 from ..source import norm_text
 from .common import walk_no_nested
-from .geo import uniq_events
+from .geo import under, uniq_events
 
 G2J = 'gemdat.jumps._generic_transitions_to_jumps'
 
@@ -21,7 +21,7 @@ def check(ctx):
     ctx.doc('R5', 'every variable that carries scanner state from one event to the next is reset when the scan moves to the next atom')
     ctx.doc('R4', 'the minimal residence occurs only as the lower bound of an elapsed-time test that admits a jump, so '
                   'raising it can only remove jumps')
-    ctx.floor('R1', 4)
+    ctx.floor('R1', 2)
     ctx.floor('R2', 2)
     ctx.floor('R3', 2)
     ctx.floor('R4', 1)
@@ -29,7 +29,7 @@ def check(ctx):
     ctx.include('C03', 'E', only=('R2', 'R3'))   # the event table the scanner reads (frame offsets, wrap removal, column kinds)
     it = ctx.pipeline()
     fi = ctx.fn(G2J)
-    inside = lambda f: f.qualname == G2J
+    inside = under(G2J)
     # ---- R1
     for e in uniq_events(it, {'column_write'}, inside):
         fr, col, val = e['frame'], e['col'], e['value']
@@ -82,7 +82,7 @@ def check(ctx):
     # role consistency of the reported rows: (destination, stop time) from the arrival event, (origin, start time) from the departure
     seen_nodes = set()
     for e in it.events:
-        if e['tag'] != 'append' or e['where'] is None or e['where'].qualname != G2J or id(e['node']) in seen_nodes:
+        if e['tag'] != 'append' or e['where'] is None or G2J not in e['ctx'] or id(e['node']) in seen_nodes:
             continue
         v = e['value']
         if v is None or v.ty != 'Row' or not v.cols:
@@ -120,74 +120,145 @@ def check(ctx):
     check_residence(ctx, it, fi)
 
 
+def functions_under(it, qual, p):
+    """FunctionInfo of `qual` and of every package function evaluated while it was on the call stack."""
+    out = {}
+    for e in it.events:
+        w = e['where']
+        if w is not None and qual in e['ctx']:
+            out[w.qualname] = w
+    if qual in p.functions:
+        out.setdefault(qual, p.functions[qual])
+    return list(out.values())
+
+
+def _parents(root):
+    pm = {}
+    for n_ in ast.walk(root):
+        for c in ast.iter_child_nodes(n_):
+            pm[id(c)] = n_
+    return pm
+
+
+def event_scans(ctx, it):
+    """(function, loop, iterated frame) for every `for ... in frame.iterrows()` reached from the jump classifier."""
+    scans = []
+    for f in functions_under(it, G2J, ctx.p):
+        for n_ in walk_no_nested(f.node):
+            if isinstance(n_, ast.For):
+                v = it.value_of(n_.iter)
+                if v is not None and v.ty == 'DataFrameIterrows':
+                    scans.append((f, n_, v.of))
+    return scans
+
+
 def check_scanner_state(ctx, rule):
     fi = ctx.fn(G2J)
-    fors = [n_ for n_ in walk_no_nested(fi.node) if isinstance(n_, ast.For)]
-    nested = []
-    for o_ in fors:
-        for i_ in o_.body:
-            if isinstance(i_, ast.For) and isinstance(i_.iter, ast.Call) and isinstance(i_.iter.func, ast.Attribute) and i_.iter.func.attr == 'iterrows':
-                nested.append((o_, i_))
-    if not nested:
-        ctx.ob(rule, fi, 'per-atom event scan', None, 'nested scan (atoms, then events of one atom) not recognised')
-    for o_, i_ in nested:
-        stores = {n_.id for n_ in ast.walk(i_) if isinstance(n_, ast.Name) and isinstance(n_.ctx, ast.Store)}
-        target_names = {n_.id for n_ in ast.walk(i_.target) if isinstance(n_, ast.Name)}
-        loads = {n_.id for s_ in i_.body for n_ in ast.walk(s_) if isinstance(n_, ast.Name) and isinstance(n_.ctx, ast.Load)}
-        carried = sorted((stores - target_names) & loads)
-        pos = o_.body.index(i_)
+    it = ctx.pipeline()
+    scans = event_scans(ctx, it)
+    if not scans:
+        ctx.ob(rule, fi, 'per-atom event scan', None, 'scan over the events of one atom (frame.iterrows()) not recognised')
+    for f, loop, frame in scans:
+        pm = _parents(f.node)
+        # the events scanned in one go are those of one atom
+        g = frame.grouped if frame is not None else None
+        ctx.ob(rule, f, loop.iter, True if g == 'atom index' else (False if (g is not None and g is not True) or (frame is not None and frame.ty == 'DataFrame' and g is None) else None),
+               'events are scanned atom by atom' if g == 'atom index' else
+               (f'the scanned events are grouped by {g!r}, not by atom' if g not in (None, True) else
+                'events of different atoms are scanned as one sequence: a pending departure of one atom is completed by an arrival of another'))
+        # region executed once per atom: body of the innermost enclosing loop, else the function body
+        cur, region, anchor = loop, None, loop
+        while id(cur) in pm:
+            par = pm[id(cur)]
+            if isinstance(par, (ast.For, ast.While)) and cur in par.body:
+                region, anchor = par.body, cur
+                break
+            if isinstance(par, (ast.FunctionDef, ast.AsyncFunctionDef)):
+                region, anchor = par.body, cur
+                break
+            cur = par
+        live = ctx.cfg(f.qualname).carried_into(loop)
+        if live is None:
+            ctx.ob(rule, f, loop.iter, None, 'loop not found in the control-flow graph')
+            continue
+        carried = sorted(live)
         reset = set()
-        for s_ in o_.body[:pos]:
-            for n_ in ast.walk(s_):
-                if isinstance(n_, ast.Name) and isinstance(n_.ctx, ast.Store):
-                    reset.add(n_.id)
-        exits = [w for w in walk_no_nested(i_) if isinstance(w, (ast.Continue, ast.Break)) ]
-        own_exits = []
-        for w in exits:
-            # only exits of this loop (not of loops nested inside it)
-            inner_loops = [l_ for l_ in ast.walk(i_) if isinstance(l_, (ast.For, ast.While)) and l_ is not i_ and any(x is w for x in ast.walk(l_))]
-            if not inner_loops:
-                own_exits.append(w)
-        ctx.ob(rule, fi, 'event scan has no early exit', not own_exits, 'every event is processed by all stages of the scan' if not own_exits else
-               f'`{norm_text(own_exits[0])}` skips the remaining stages for some events: an event that confirms a pending jump is not examined as a '
-               f'departure / arrival itself, so jumps are lost or appear when the minimal residence is raised')
+        if region is not None:
+            pos = region.index(anchor) if anchor in region else len(region)
+            for s_ in region[:pos]:
+                for n_ in ast.walk(s_):
+                    if isinstance(n_, ast.Name) and isinstance(n_.ctx, ast.Store):
+                        reset.add(n_.id)
+        # every event reaches the departure stage (the test of its start site against NOSITE): no early exit before it
+        cfg = ctx.cfg(f.qualname)
+        head = next((k for k, d in enumerate(cfg.nodes) if d[0] == 'for' and d[1] is loop), None)
+        start = next((k for k in cfg.succ[head] if cfg.nodes[k][0] == 'edge' and cfg.nodes[k][2] is True), None) if head is not None else None
+        stage = []
+        for k, d in enumerate(cfg.nodes):
+            if d[0] != 'test' or not any(x is d[1] for x in ast.walk(loop)):
+                continue
+            v = it.value_of(d[1])
+            if v is None or v.cmp is None:
+                continue
+            o_, l_, r_ = v.cmp[:3]
+            for a_, b_ in ((l_, r_), (r_, l_)):
+                if a_ is not None and a_.col == 'start site' and b_ is not None and (b_.nosite_marker or b_.gname == 'gemdat.transitions.NOSITE'
+                                                                                     or (has_const(b_) and cval(b_) == -1)):
+                    stage.append(k)
+        if start is None or not stage:
+            ctx.ob(rule, f, 'event scan has no early exit', None, 'departure stage (test of the start site against NOSITE) not recognised')
+        else:
+            ok = cfg.all_paths_pass(start, head, stage) and all(
+                cfg.all_paths_pass(start, k, stage) for k, d in enumerate(cfg.nodes) if d[0] == 'stmt' and isinstance(d[1], ast.Break)
+                and any(x is d[1] for x in ast.walk(loop)))
+            ctx.ob(rule, f, 'event scan has no early exit', ok, 'every event is examined as a possible departure' if ok else
+                   'an early exit of the scan loop skips the departure stage for some events: an event that confirms a pending jump is not '
+                   'examined as a departure / arrival itself, so jumps are lost or appear when the minimal residence is raised')
         for name in carried:
             ok = name in reset
-            ctx.ob(rule, fi, f'scanner state `{name}`', ok, 'reset for every atom before its events are scanned' if ok else
+            ctx.ob(rule, f, f'scanner state `{name}`', ok, 'reset for every atom before its events are scanned' if ok else
                    f'`{name}` carries state from one event to the next but is not reset when the scan moves on to the next atom: a pending '
                    f'departure of one atom is completed by an arrival of the following atom (phantom jump, depends on the atom order)')
 
 
 def check_residence(ctx, it, fi):
     prm = 'minimal_residence'
-    uses = [n_ for n_ in walk_no_nested(fi.node) if isinstance(n_, ast.Name) and n_.id == prm and isinstance(n_.ctx, ast.Load)]
-    pm = {}
-    for n_ in ast.walk(fi.node):
-        for c in ast.iter_child_nodes(n_):
-            pm[id(c)] = n_
-    if not uses:
-        ctx.ob('R4', fi, prm, False, 'the minimal residence is ignored')
-    for u in uses:
-        par = pm.get(id(u))
-        if not (isinstance(par, ast.Compare) and len(par.ops) == 1):
-            ctx.ob('R4', fi, par if par is not None else u, None, 'minimal residence used outside a comparison')
-            continue
-        op = par.ops[0]
-        other = par.left if par.comparators[0] is u else par.comparators[0]
-        lower_bound = (par.comparators[0] is u and isinstance(op, (ast.GtE, ast.Gt))) or (par.left is u and isinstance(op, (ast.LtE, ast.Lt)))
-        ov = it.value_of(other)
-        elapsed = ov is not None and ov.idx == ('FRAMEDIFF',)
-        # the true branch must admit (append) a jump
-        st = pm.get(id(par))
-        while st is not None and not isinstance(st, ast.If):
-            st = pm.get(id(st))
-        admits = st is not None and st.test is par and any(isinstance(w, ast.Call) and isinstance(w.func, ast.Attribute) and w.func.attr == 'append'
-                                                           for b in st.body for w in ast.walk(b))
-        if lower_bound and elapsed and admits:
-            ctx.ob('R4', fi, par, True, 'elapsed time >= minimal residence admits the pending jump')
-        elif elapsed and admits and not lower_bound:
-            ctx.ob('R4', fi, par, False, 'the minimal residence is an upper bound of the admitting test: raising it adds jumps')
-        elif elapsed and lower_bound and not admits:
-            ctx.ob('R4', fi, par, False, 'the branch taken when the residence is long enough does not report the jump')
-        else:
-            ctx.ob('R4', fi, par, None, 'residence test not recognised')
+    dep = f'param:{fi.name}.{prm}'
+    n_tests = 0
+    for f in functions_under(it, G2J, ctx.p):
+        pm = _parents(f.node)
+        for par in walk_no_nested(f.node):
+            if not (isinstance(par, ast.Compare) and len(par.ops) == 1):
+                continue
+            lv, rv = it.value_of(par.left), it.value_of(par.comparators[0])
+            l_is = lv is not None and lv.deps is not None and dep in lv.deps and lv.idx != ('FRAMEDIFF',)
+            r_is = rv is not None and rv.deps is not None and dep in rv.deps and rv.idx != ('FRAMEDIFF',)
+            if l_is == r_is:
+                continue
+            n_tests += 1
+            op = par.ops[0]
+            ov = lv if r_is else rv
+            lower_bound = (r_is and isinstance(op, (ast.GtE, ast.Gt))) or (l_is and isinstance(op, (ast.LtE, ast.Lt)))
+            elapsed = ov is not None and ov.idx == ('FRAMEDIFF',)
+            st = pm.get(id(par))
+            neg = False
+            while st is not None and not isinstance(st, ast.If):
+                if isinstance(st, ast.UnaryOp) and isinstance(st.op, ast.Not):
+                    neg = not neg
+                st = pm.get(id(st))
+            if neg:
+                lower_bound = not lower_bound if isinstance(op, (ast.GtE, ast.Gt, ast.LtE, ast.Lt)) else lower_bound
+            branch = (st.body if not neg else st.orelse) if st is not None else []
+            admits = st is not None and any(isinstance(w, ast.Call) and isinstance(w.func, ast.Attribute) and w.func.attr in ('append', 'extend')
+                                            for b in branch for w in ast.walk(b))
+            if lower_bound and elapsed and admits:
+                ctx.ob('R4', f, par, True, 'elapsed time >= minimal residence admits the pending jump')
+            elif elapsed and admits and not lower_bound:
+                ctx.ob('R4', f, par, False, 'the minimal residence is an upper bound of the admitting test: raising it adds jumps')
+            elif elapsed and lower_bound and not admits:
+                ctx.ob('R4', f, par, False, 'the branch taken when the residence is long enough does not report the jump')
+            else:
+                ctx.ob('R4', f, par, None, 'residence test not recognised')
+    if not n_tests:
+        used = any(isinstance(n_, ast.Name) and n_.id == prm and isinstance(n_.ctx, ast.Load) for n_ in walk_no_nested(fi.node))
+        ctx.ob('R4', fi, prm, None if used else False, 'no elapsed-time test against the minimal residence recognised' if used else 'the minimal residence is ignored')
